@@ -6,7 +6,8 @@
 From Coq Require Import List ZArith NArith Bool String.
 Import ListNotations.
 From DD Require Import Base.PyStr Base.Value Hash.HashModel Hash.Equiv
-  Hash.HashProofsBase Hash.HashProofsC06 Hash.HashProofsC07 Hash.HashProofsMemo Hash.HashProofsK2 Hash.HexHash.
+  Hash.HashProofsBase Hash.HashProofsC06 Hash.HashProofsC07 Hash.HashProofsMemo Hash.HashProofsK2 Hash.HexHash
+  Hash.HashAlike Hash.HashProofsAlike.
 
 (* Full strength (all plain option records in the property's three modes, all
    values) is false of the faithful model: K1 and K4 below. *)
@@ -192,3 +193,92 @@ Theorem C07_guards_satisfiable :
   (forall s, s <> [] -> sepfree (unary_hash s)) /\ (forall s t, unary_hash s = unary_hash t -> s = t).
 Proof. split; [exact guards_example|split; [exact unary_hash_tok|exact unary_hash_inj]]. Qed.
 Print Assumptions C07_guards_satisfiable.
+
+(* ------------------------------------------------------------------ *)
+(* Round 3: the EXACT characterisation of hash equality.  [heqb o a b] (Hash/HashAlike.v) is a decidable relation
+   written without reference to the hash model: scalars alike iff same type and value; lists / tuples alike iff
+   the class sequences of their items (classes = alike items) agree as the mode says - as sets, as multisets, as
+   first-occurrence sequences, or (ignore_iterable_order=False, ignore_repetition=False) as first-occurrence COUNT
+   TABLES, which is K4; dicts alike iff the same multiset of (key, class of value) over the visible items; sets /
+   frozensets alike iff their member sequences IN ITERATION ORDER agree as the mode says, which is K3.
+   For every hasher that is injective with non-empty separator-free outputs, every plain option record in each of
+   the FOUR (ignore_repetition, ignore_iterable_order) combinations, and all tag-safe values (no wf, no
+   distinct_items, no small_sets): *)
+Theorem C07_hash_alike_exact :
+  forall (H : pystr -> pystr),
+  (forall s, s <> [] -> sepfree (H s)) -> (forall s t, H s = H t -> s = t) ->
+  forall o a b, plain o = true -> tag_safe a = true -> tag_safe b = true ->
+  (hash_pure H o a = hash_pure H o b <-> heqb o a b = true).
+Proof. intros H H_tok H_inj o a b Hp. apply (hash_alike H H_tok H_inj o Hp). Qed.
+Print Assumptions C07_hash_alike_exact.
+
+(* the same with no hypothesis on the hasher, for the hasher the correspondence check runs *)
+Theorem C07_hash_alike_exact_hexhash :
+  forall o a b, plain o = true ->
+  tag_safe a = true -> tag_safe b = true -> val_okb a = true -> val_okb b = true ->
+  (hash_pure hexhash o a = hash_pure hexhash o b <-> heqb o a b = true).
+Proof. exact hash_alike_hexhash. Qed.
+Print Assumptions C07_hash_alike_exact_hexhash.
+
+(* What [heqb] is, without any hasher in the statement: an equivalence relation; in the order-insensitive modes
+   exactly [eqv]; in ordered mode exactly [eqvi] (equal content, sets in the same iteration order) on values in
+   which no list / tuple holds two alike items ([norep], a condition on the INPUT replacing the hash-level guard
+   [distinct_items H o]); [eqvi] always implies alike. *)
+Theorem C07_heqb_is_the_mode_equivalence :
+  forall o, plain o = true ->
+  ((forall a, tag_safe a = true -> heqb o a a = true) /\
+   (forall a b, tag_safe a = true -> tag_safe b = true -> heqb o a b = true -> heqb o b a = true) /\
+   (forall a b c, tag_safe a = true -> tag_safe b = true -> tag_safe c = true ->
+      heqb o a b = true -> heqb o b c = true -> heqb o a c = true)) /\
+  (forall a b, ignore_iterable_order o = true ->
+     tag_safe a = true -> tag_safe b = true -> wf a = true -> wf b = true ->
+     (heqb o a b = true <-> eqv o a b)) /\
+  (forall a b, ignore_iterable_order o = false -> ignore_repetition o = false ->
+     tag_safe a = true -> tag_safe b = true -> wf a = true -> wf b = true ->
+     norep o a = true -> norep o b = true ->
+     (heqb o a b = true <-> eqvi o a b)) /\
+  (forall a b, tag_safe a = true -> tag_safe b = true -> eqvi o a b -> heqb o a b = true).
+Proof.
+  intros o Hp. split; [exact (heqb_equivalence o Hp)|]. split; [|split].
+  - intros a b Hio Ta Tb Wa Wb. apply heqb_eqv; auto.
+  - intros a b Hio Hir Ta Tb Wa Wb Na Nb. apply heqb_eqvi_ordered; auto.
+  - intros a b Ta Tb. apply eqvi_heqb; auto.
+Qed.
+Print Assumptions C07_heqb_is_the_mode_equivalence.
+
+(* Ordered mode with the guard at the level of the input: equal hashes IF AND ONLY IF equal content with sets in
+   the same iteration order (the conclusion is finer than [eqv]: K3 is part of it). *)
+Theorem C07_ordered_norep_exact :
+  forall (H : pystr -> pystr),
+  (forall s, s <> [] -> sepfree (H s)) -> (forall s t, H s = H t -> s = t) ->
+  forall o a b,
+  plain o = true -> ignore_iterable_order o = false -> ignore_repetition o = false ->
+  tag_safe a = true -> tag_safe b = true -> wf a = true -> wf b = true ->
+  norep o a = true -> norep o b = true ->
+  (hash_pure H o a = hash_pure H o b <-> eqvi o a b).
+Proof. exact ordered_norep_exact. Qed.
+Print Assumptions C07_ordered_norep_exact.
+
+(* the input-level guard implies the hash-level guard of C07_hash_inj_ordered_partial *)
+Theorem C07_norep_implies_distinct_items :
+  forall (H : pystr -> pystr),
+  (forall s, s <> [] -> sepfree (H s)) -> (forall s t, H s = H t -> s = t) ->
+  forall o v, plain o = true -> tag_safe v = true -> norep o v = true -> distinct_items H o v = true.
+Proof. exact norep_distinct. Qed.
+Print Assumptions C07_norep_implies_distinct_items.
+
+(* K4 and K3 inside the exact relation; [norep] is needed (K4 pair: alike, not equal content, not norep) and
+   satisfiable by a value that holds a two-member set and nested lists *)
+Theorem C07_alike_witnesses :
+  (let a := VList [VAtom (AInt 1); VAtom (AInt 2); VAtom (AInt 1)] in
+   let b := VList [VAtom (AInt 1); VAtom (AInt 1); VAtom (AInt 2)] in
+   heqb ordered_mode a b = true /\ ~ eqvi ordered_mode a b /\ norep ordered_mode a = false /\
+   tag_safe a = true /\ tag_safe b = true /\ wf a = true /\ wf b = true) /\
+  (heqb ordered_mode (VSet [AInt 0; AInt 8]) (VSet [AInt 8; AInt 0]) = false /\
+   eqv ordered_mode (VSet [AInt 0; AInt 8]) (VSet [AInt 8; AInt 0]) /\
+   ~ eqvi ordered_mode (VSet [AInt 0; AInt 8]) (VSet [AInt 8; AInt 0])) /\
+  (let v := VList [VSet [AInt 0; AInt 8]; VList [VAtom (AInt 1); VAtom (AInt 2)]; VList [VAtom (AInt 2); VAtom (AInt 1)];
+                   VDict [(AStr (s2p "a"), VTuple [VAtom (AInt 1); VAtom (AHalf 2); VAtom (ABool true)])]] in
+   norep ordered_mode v = true /\ tag_safe v = true /\ wf v = true /\ small_sets v = false /\ eqvi ordered_mode v v).
+Proof. split; [exact k4_alike|split; [exact k3_not_alike|exact norep_example]]. Qed.
+Print Assumptions C07_alike_witnesses.
